@@ -27,4 +27,19 @@ for s in $seeds; do
   rm -rf /var/tmp/seedout
   if [ -n "$caught" ]; then echo "$s CAUGHT$caught" | tee -a $out.tmp; else echo "$s MISSED (checked: $props)" | tee -a $out.tmp; fi
 done
-mv $out.tmp $out
+# merge: lines of the seeds just run replace their old lines, other lines are kept
+python3 - "$out" "$out.tmp" <<'PY'
+import sys,os
+old,new=sys.argv[1],sys.argv[2]
+lines={}
+order=[]
+for f in (old,new):
+    if not os.path.exists(f): continue
+    for l in open(f):
+        if not l.strip(): continue
+        k=l.split()[0]
+        if k not in lines: order.append(k)
+        lines[k]=l
+open(old,'w').write(''.join(lines[k] for k in sorted(order)))
+os.remove(new)
+PY
